@@ -250,6 +250,45 @@ def main(argv):
             if o != "ok " + want:
                 ctx.disagreement("Lean serializer model differs from the implementation (flags / payload kind / compression decision)", dict(case, impl=want[:200], model=o[:200]),
                                  theorem="C15_serde_roundtrip")
+    # ---- items this client did not write: the flag cascade of the default deserialiser on ANY flags word (python-memcached's long flag, several flags at
+    #      once, unknown bits) and on payloads that do not decode / unpickle - compared with `Serde.deserialize` (C15_cascade_order).  Integer payloads are
+    #      the canonical decimal spellings and non-numbers (the model's integer syntax is the serialiser's own output, not everything int() accepts) ----
+    import pickle as _pickle
+    from pymemcache import serde as _sd
+    payloads = [b"", b"0", b"123", b"-7", b"18446744073709551616", b"abc", b"12a", "\u00e9".encode(), b"\xff\xfe", _pickle.dumps({"a": [1, 2]}), _pickle.dumps(None),
+                b"\x80\x04garbage", b"\x80", _pickle.dumps(7)[:-1]]
+    dlines, dreal = [], []
+    for flags_ in list(range(0, 64)) + [64, 128, 65, 1 << 16, (1 << 16) | 2]:
+        for pl in payloads:
+            try:
+                pl.decode("utf8")
+                u_ok = True
+            except UnicodeDecodeError:
+                u_ok = False
+            try:
+                _pickle.loads(pl)
+                k_ok = True
+            except Exception:
+                k_ok = False
+            try:
+                r_ = _sd.python_memcache_deserializer("k", pl, flags_)
+                got_ = ("bytes:" + hx(r_)) if type(r_) is bytes else "str" if type(r_) is str else f"int:{r_}" if type(r_) is int else "None" if r_ is None and not k_ok else "other"
+                got_ = "ok " + got_
+            except UnicodeDecodeError:
+                got_ = "err decode"
+            except ValueError:
+                got_ = "err value"
+            except Exception as e_:
+                got_ = "raised " + type(e_).__name__
+            dlines.append(f"deser flags={flags_} val={hx(pl)} utf8ok={int(u_ok)} pickleok={int(k_ok)}")
+            dreal.append((flags_, pl, got_))
+            ctx.case(("foreign-flags", flags_, pl))
+            ctx.count("deserialisation of items with arbitrary flags")
+    if ctx.driver.available and ctx.lean.build_ok:
+        for (flags_, pl, got_), m_ in zip(dreal, ctx.driver.batch(dlines)):
+            if m_ != got_:
+                ctx.disagreement("model Serde.deserialize differs from python_memcache_deserializer on a stored item", {"flags": flags_, "payload": repr(pl)[:60], "implementation": got_, "model": m_},
+                                 theorem="C15_cascade_order")
     ctx.assumptions = ["pickle, utf-8 and the compression codecs are left-inverse pairs (exercised here, hypotheses of the theorems)",
                        "'equal' is Python ==, NaN compared by identity of being NaN"]
     ctx.finish()
